@@ -196,7 +196,16 @@ func (r verifC25PlainReporter) Violation(key string, format string, args ...inte
 	r.p.Violation(key, format, args...)
 }
 func (r verifC25PlainReporter) Class(label string) { r.p.Class(label, 1) }
-func (r verifC25PlainReporter) Excluded(string)    {}
+
+// Excluded: kit.Plain counts an exclusion through Violation with a key listed as known (it returns); if the key is
+// not listed the event is only classified (the exclusion is by construction, it does not depend on the list)
+func (r verifC25PlainReporter) Excluded(key string) {
+	if kit.IsKnown(key) {
+		r.p.Violation(key, "excluded by construction")
+		return
+	}
+	r.p.Class("excluded-unlisted:"+key, 1)
+}
 func (r verifC25PlainReporter) NoPanic(key string, f func()) {
 	defer func() {
 		if x := recover(); x != nil {
@@ -222,6 +231,7 @@ type verifC25Machine struct {
 
 	// C25 non-triviality
 	sawBigSenderEviction bool
+	overLimit            map[*txListForSender]bool // list objects left over their limit by a known-shape event
 	sawGlobalEviction    bool
 	removedSender        map[int]bool
 	sawAddAfterRemoval   bool
@@ -281,6 +291,7 @@ func verifC25NewMachineWith(c verifC25Reporter, mode int, cfg ConfigSourceMe, nS
 		c: c, mode: mode, cfg: cfg, nSenders: nSenders, maxNonce: 8,
 		universe:      map[string]verifC25Content{},
 		removedSender: map[int]bool{},
+		overLimit:     map[*txListForSender]bool{},
 		lists:         map[*txListForSender]*verifC26ListModel{},
 	}
 	if kit.Thorough() {
@@ -424,22 +435,61 @@ func verifC25ListBytes(l []*WrappedTransaction) int64 {
 	return n
 }
 
-// (4) limits of the sender right after an addition
-func (m *verifC25Machine) checkSenderLimits(x verifC25Content, before, after verifC25Snap) {
+// Known finding C25:sender-limit:needs-multiple-evictions (not repaired in the repository because an existing
+// repository test pins the outcome): applySizeConstraints evicts at most one transaction per add. The known shape
+// is exactly: after an add the sender's byte (or count) limit is exceeded AND that add already evicted exactly one
+// transaction of this sender (so more than one eviction was needed). Such an event is counted
+// (c.Excluded) and the program continues - the oracle keeps no model of the pool contents, it re-reads both indexes
+// after every step, so nothing has to be adjusted. Any other shape (limit exceeded after an add that evicted nothing,
+// or that evicted two or more) is reported under the ordinary keys and fails.
+// One consequence is tolerated: a duplicate add (a no-op: list identical before and after) on a list object that is
+// still over its limit from an earlier known-shape event is not a new event (class limit-carried-over-by-noop-add).
+const verifC25KnownLimitKey = "C25:sender-limit:needs-multiple-evictions"
+
+func verifC25SameList(a, b []*WrappedTransaction) bool {
+	if len(a) != len(b) {
+		return false
+	}
+	for i := range a {
+		if a[i] != b[i] {
+			return false
+		}
+	}
+	return true
+}
+
+// (4) limits of the sender right after an addition; evictedOfSender = number of transactions of this sender
+// (the added one included) that this add removed from its list
+func (m *verifC25Machine) checkSenderLimits(x verifC25Content, before, after verifC25Snap, evictedOfSender int) {
 	if m.mode != 25 {
 		return
 	}
 	addr := verifC25SenderAddr(x.sender)
 	l := after.txs(addr)
 	nb := verifC25ListBytes(l)
-	if len(l) > int(m.cfg.CountPerSenderThreshold) {
-		m.c.Violation("C25:sender-count-limit", "after adding %s sender s%d holds %d txs > CountPerSenderThreshold %d: before=%s after=%s; %s",
-			x, x.sender, len(l), m.cfg.CountPerSenderThreshold, verifC25DescribeList(before.txs(addr)), verifC25DescribeList(l), m.traceString())
+	tooMany := len(l) > int(m.cfg.CountPerSenderThreshold)
+	tooBig := nb > int64(m.cfg.NumBytesPerSenderThreshold)
+	if !tooMany && !tooBig {
+		return
 	}
-	if nb > int64(m.cfg.NumBytesPerSenderThreshold) {
-		m.c.Violation("C25:sender-bytes-limit", "after adding %s sender s%d holds %d bytes > NumBytesPerSenderThreshold %d: before=%s after=%s; %s",
-			x, x.sender, nb, m.cfg.NumBytesPerSenderThreshold, verifC25DescribeList(before.txs(addr)), verifC25DescribeList(l), m.traceString())
+	ptr := after.ptr(addr)
+	if evictedOfSender == 1 {
+		m.c.Excluded(verifC25KnownLimitKey)
+		m.c.Class("excluded:sender-limit-needs-multiple-evictions")
+		m.overLimit[ptr] = true
+		m.sawBigSenderEviction = true // an add that needed >= 2 evictions of its sender
+		return
 	}
+	if evictedOfSender == 0 && m.overLimit[ptr] && before.ptr(addr) == ptr && verifC25SameList(before.txs(addr), l) {
+		m.c.Class("limit-carried-over-by-noop-add")
+		return
+	}
+	if tooMany {
+		m.c.Violation("C25:sender-count-limit", "after adding %s (which evicted %d txs of the sender) sender s%d holds %d txs > CountPerSenderThreshold %d: before=%s after=%s; %s",
+			x, evictedOfSender, x.sender, len(l), m.cfg.CountPerSenderThreshold, verifC25DescribeList(before.txs(addr)), verifC25DescribeList(l), m.traceString())
+	}
+	m.c.Violation("C25:sender-bytes-limit", "after adding %s (which evicted %d txs of the sender) sender s%d holds %d bytes > NumBytesPerSenderThreshold %d: before=%s after=%s; %s",
+		x, evictedOfSender, x.sender, nb, m.cfg.NumBytesPerSenderThreshold, verifC25DescribeList(before.txs(addr)), verifC25DescribeList(l), m.traceString())
 }
 
 // ---------------------------------------------------------------- actions
@@ -461,41 +511,41 @@ func (m *verifC25Machine) addTx(x verifC25Content, label string) {
 		c.Class("add-with-global-eviction-pass")
 		m.sawGlobalEviction = true
 	}
-	// per-sender evictions: same list object before and after, txs of the sender that disappeared
+	// per-sender evictions of this add: txs of the sender (the added one included) that are not in its list
+	// afterwards. Base = the list before the add if the same list object is still registered; if the sender was
+	// not registered, or was dropped by the global eviction pass of this very add and registered anew, the base is empty.
+	var base []*WrappedTransaction
 	if before.ptr(addr) != nil && before.ptr(addr) == after.ptr(addr) {
-		still := map[string]bool{}
-		for _, tx := range after.txs(addr) {
-			still[string(tx.TxHash)] = true
+		base = before.txs(addr)
+	}
+	still := map[string]bool{}
+	for _, tx := range after.txs(addr) {
+		still[string(tx.TxHash)] = true
+	}
+	gone := 0
+	present := false
+	for _, tx := range base {
+		if !still[string(tx.TxHash)] {
+			gone++
 		}
-		gone := 0
-		for _, tx := range before.txs(addr) {
-			if !still[string(tx.TxHash)] {
-				gone++
-			}
+		if string(tx.TxHash) == x.hash() {
+			present = true
 		}
-		if !still[x.hash()] {
-			present := false
-			for _, tx := range before.txs(addr) {
-				if string(tx.TxHash) == x.hash() {
-					present = true
-				}
-			}
-			if !present {
-				gone++
-			}
-		}
-		if gone >= 1 {
-			c.Class("add-with-sender-eviction")
-		}
-		if gone >= 2 {
-			c.Class("add-with-sender-eviction>=2")
-			m.sawBigSenderEviction = true
-		}
+	}
+	if !still[x.hash()] && !present {
+		gone++
+	}
+	if gone >= 1 {
+		c.Class("add-with-sender-eviction")
+	}
+	if gone >= 2 {
+		c.Class("add-with-sender-eviction>=2")
+		m.sawBigSenderEviction = true
 	}
 	if m.removedSender[x.sender] {
 		m.sawAddAfterRemoval = true
 	}
-	m.checkSenderLimits(x, before, after)
+	m.checkSenderLimits(x, before, after, gone)
 }
 
 func (m *verifC25Machine) opAdd(t *rapid.T) {
@@ -991,9 +1041,14 @@ func verifC25RegressCache(t *testing.T, cfg ConfigSourceMe) *TxCache {
 	return cache
 }
 
-// Minimal counterexamples of the applySizeConstraints defect (at most one eviction per add):
-// the sender's byte limit stayed exceeded after an addition.
+// Minimal counterexamples of the applySizeConstraints defect (at most one eviction per add: the sender's byte limit
+// stays exceeded after an addition). The defect is a known finding (verifC25KnownLimitKey): the table runs through the
+// same machine and oracle as the generated programs, so on the unrepaired tree the two known-shape cases are counted as
+// excluded, on a repaired tree they simply pass; any other limit or index violation fails.
 func TestVerifC25_Regress(t *testing.T) {
+	p := kit.NewPlain(t, "C25", "regression table: minimal add sequences of the one-eviction-per-add defect and a lone oversize tx; same oracle as the generated programs")
+	defer p.Done()
+	rep := verifC25PlainReporter{p}
 	cases := []struct {
 		name           string
 		countPerSender uint32
@@ -1004,30 +1059,24 @@ func TestVerifC25_Regress(t *testing.T) {
 		{"shrunk", 1, 10, []verifC25Content{{0, 0, 0, 1, 0}, {0, 0, 0, 20, 0}}},
 		// a big tx with a low nonce arrives after two small ones: two evictions are needed
 		{"low-nonce-big-tx", 5, 300, []verifC25Content{{0, 1, 0, 100, 0}, {0, 2, 0, 100, 0}, {0, 0, 0, 250, 0}}},
-		// a lone oversize tx
+		// the same, followed by a duplicate add (no-op on a list that is still over its limit) and a further add
+		{"carried-over", 5, 300, []verifC25Content{{0, 1, 0, 100, 0}, {0, 2, 0, 100, 0}, {0, 0, 0, 250, 0}, {0, 0, 0, 250, 0}, {0, 3, 0, 10, 0}}},
+		// a lone oversize tx is evicted
 		{"lone-oversize", 5, 30, []verifC25Content{{0, 3, 1, 31, 0}}},
 	}
 	for _, tc := range cases {
-		cache := verifC25RegressCache(t, ConfigSourceMe{NumChunks: 1, NumBytesThreshold: 100000, CountThreshold: 1000,
-			NumBytesPerSenderThreshold: tc.bytesPerSender, CountPerSenderThreshold: tc.countPerSender, NumSendersToPreemptivelyEvict: 1})
+		cfg := ConfigSourceMe{Name: "verif", NumChunks: 1, EvictionEnabled: true, NumBytesThreshold: 100000, CountThreshold: 1000,
+			NumBytesPerSenderThreshold: tc.bytesPerSender, CountPerSenderThreshold: tc.countPerSender, NumSendersToPreemptivelyEvict: 1}
+		m, err := verifC25NewMachineWith(rep, 25, cfg, 1)
+		if err != nil {
+			t.Fatalf("fixture: %v", err)
+		}
+		m.logf("regress %s", tc.name)
 		for _, x := range tc.adds {
-			cache.AddTx(verifC25Wrap(x))
+			m.addTx(x, "add")
+			m.checkIndexes("after add")
 		}
-		s := verifC25TakeSnap(cache)
-		l := s.txs(verifC25SenderAddr(0))
-		if nb := verifC25ListBytes(l); nb > int64(tc.bytesPerSender) {
-			kit.FailPlain(t, "C25", "C25:sender-bytes-limit", "%s: after adds %v the sender holds %d bytes > limit %d: %s", tc.name, tc.adds, nb, tc.bytesPerSender, verifC25DescribeList(l))
-		}
-		if len(l) > int(tc.countPerSender) {
-			kit.FailPlain(t, "C25", "C25:sender-count-limit", "%s: after adds %v the sender holds %d txs > limit %d", tc.name, tc.adds, len(l), tc.countPerSender)
-		}
-		cnt, nb := s.totals()
-		if cache.CountTx() != uint64(cnt) {
-			kit.FailPlain(t, "C25", "C25:count-tx", "%s: CountTx=%d, lists hold %d txs", tc.name, cache.CountTx(), cnt)
-		}
-		if int64(cache.NumBytes()) != nb {
-			kit.FailPlain(t, "C25", "C25:num-bytes", "%s: NumBytes=%d, lists hold %d bytes", tc.name, cache.NumBytes(), nb)
-		}
+		p.Eval(1)
 	}
 }
 
